@@ -30,6 +30,11 @@ the evaluation must become one more row of x / y / y_err of the optimiser AND of
   history/data/<x|y|gp.x|gp.y>-is-not-initial-data-plus-added-evaluations/after-add-at-a-location-already-in-the-data
   history/data/y_err-is-not-initial-plus-added-errors/after-add-at-a-location-already-in-the-data
   history/incumbent/mu_max-is-not-max-y/after-add-at-a-location-already-in-the-data         (and all probes / invariants above in those states)
+Numeric dtypes / containers (evaluator "dtype"): initial x and y in {float64, int64, float32, int32, list of ints, list of floats} x three consecutive adds
+rotating through six forms of the added location and six of the added value (python float / int, numpy integer scalars, 0-d arrays, float32 arrays, lists):
+  dtype/data/<x|y|gp.x|gp.y>-row-is-not-the-evaluation-that-was-added/initial-<x|y>-<integer|float32|float64>     the new row is not the float64 value of what was added
+  dtype/data/<...>-is-not-initial-data-plus-added-evaluations/...        earlier rows changed          dtype/incumbent/mu_max-is-not-max-y/initial-y-<class>
+  dtype/predict/<mean|variance>-differs-from-fresh-optimiser-on-the-same-data-as-float64/...        dtype/caller-array-modified/<site>       dtype/.../raises:<Type>
 """
 import copy
 import itertools
@@ -848,7 +853,242 @@ def ev_history(case):
             "sample": {"config": cfg, "states": len(states), "transitions": transitions, "scripted_random_calls": counters["random_calls"], "states_probed": counters["probed_states"]}}
 
 
-EVALUATORS = {"acq": ev_acq, "selftest": ev_selftest, "history": ev_history}
+# ====================================================================================== part E: numeric dtypes / containers
+# Initial data and added evaluations in every numeric dtype / container form.  The property has no clause about dtypes: the evaluation
+# that was ADDED (its value, as a float64) is the new row of the data, the incumbent is max of all y given, and the model is the model of
+# those data.
+DT_XKINDS = ["f64", "i64", "f32", "list-int", "i32", "list-float"]
+DT_YKINDS = ["f64", "i64", "list-int", "f32", "i32", "list-float"]
+DT_ROWS = {
+    ("float", 1): [[0.25], [1.0], [2.5]],
+    ("int", 1): [[0], [1], [3]],
+    ("float", 2): [[0.25, 0.5], [1.0, 2.25], [2.5, 1.0], [0.75, 2.75]],
+    ("int", 2): [[0, 1], [1, 3], [3, 1], [2, 0]],
+}
+DT_YINT = [1, 4, 2, 3]
+DT_CLASS = {"f64": "float64", "list-float": "float64", "f32": "float32", "i64": "integer", "i32": "integer", "list-int": "integer"}
+DT_BOUNDS = (-2.0, 6.0)
+DT_NADD_FORMS = 6
+DT_PROBES = {1: [[1.3], [3.6]], 2: [[1.3, 1.9], [3.6, 0.4]]}
+
+
+def dt_initial(d, xkind, ykind, flat):
+    """(rows as float64 lists, x object handed to the constructor, y values as floats, y object)"""
+    isint = xkind in ("i64", "i32", "list-int")
+    rows = DT_ROWS[("int" if isint else "float", d)]
+    shaped = [r[0] for r in rows] if (d == 1 and flat) else [list(r) for r in rows]
+    if xkind.startswith("list"):
+        x = shaped
+    else:
+        x = np.array(shaped, dtype={"f64": np.float64, "f32": np.float32, "i64": np.int64, "i32": np.int32}[xkind])
+    yint = ykind in ("i64", "i32", "list-int")
+    yv = DT_YINT[: len(rows)] if yint else [objective(r) for r in rows]
+    if ykind == "f32":
+        yv = [float(np.float32(v)) for v in yv]  # the caller's float32 numbers ARE the data
+    if ykind.startswith("list"):
+        y = list(yv)
+    else:
+        y = np.array(yv, dtype={"f64": np.float64, "f32": np.float32, "i64": np.int64, "i32": np.int32}[ykind])
+    return [[float(v) for v in r] for r in rows], x, [float(v) for v in yv], y
+
+
+def dt_add_x(d, k):
+    """k-th form of an added location: (description, object)"""
+    k %= DT_NADD_FORMS
+    if d == 1:
+        return [
+            ("python-float", 1.7),
+            ("python-int", 2),
+            ("int64-array(d,)", np.array([4], dtype=np.int64)),
+            ("float32-array(1,d)", np.array([[0.625]], dtype=np.float32)),
+            ("list-of-ints", [-1]),
+            ("int32-0d-array", np.array(5, dtype=np.int32)),
+        ][k]
+    return [
+        ("float64-array(d,)", np.array([1.7, 0.3])),
+        ("list-of-ints", [2, 2]),
+        ("int64-array(d,)", np.array([4, 1], dtype=np.int64)),
+        ("float32-array(1,d)", np.array([[0.625, 2.375]], dtype=np.float32)),
+        ("list-int-and-float", [-1, 0.5]),
+        ("int32-array(1,d)", np.array([[5, 3]], dtype=np.int32)),
+    ][k]
+
+
+def dt_add_y(k):
+    k %= DT_NADD_FORMS
+    return [
+        ("python-float", 6.8),
+        ("python-int", 3),
+        ("int64-scalar", np.int64(7)),
+        ("int32-0d-array", np.array(2, dtype=np.int32)),
+        ("float32-array(1,)", np.array([0.3], dtype=np.float32)),
+        ("float32-scalar", np.float32(7.3)),
+    ][k]
+
+
+def ev_dtype(case):
+    import inference.gp as G
+    from inference.gp import acquisition as ACQM
+    from inference.gp import regression as REGM
+
+    d, xkind, ykind, r, yrot = case["d"], case["xkind"], case["ykind"], case["rot"], case["yrot"]
+    aname = ACQ[case["acq"]]
+    fails, seen, tags, slack, nev = [], {}, set(), {}, 0
+
+    def bad(key, what, **kw):
+        seen[key] = seen.get(key, 0) + 1
+        if seen[key] == 1:
+            fails.append(fail(key, what, case=case, **kw))
+
+    script = Script(case["script"])
+    for mod in (ACQM, REGM):
+        if not hasattr(mod, "random"):
+            raise HarnessError(f"seam missing: {mod.__name__}.random")
+    saved = (ACQM.random, REGM.random)
+    ACQM.random = script
+    REGM.random = script
+    try:
+        rows, x0, yv0, y0 = dt_initial(d, xkind, ykind, flat=bool(r % 2))
+        e0 = np.array([0.05, 0.1, 0.02, 0.07][: len(rows)]) if case["yerr"] else None
+        bounds = [DT_BOUNDS] * d
+        snap = Snap()
+        snap.add("ctor-x", x0)
+        snap.add("ctor-y", y0)
+        if e0 is not None:
+            snap.add("ctor-y_err", e0)
+        mk_acq = lambda: getattr(ACQM, aname)(case["kappa"]) if case["acq"] == "UCB" else getattr(ACQM, aname)()
+        kw = {} if e0 is None else {"y_err": e0}
+        np.random.seed(777)
+        try:
+            with lib("GpOptimiser"):
+                opt = G.GpOptimiser(x0, y0, bounds=[tuple(b) for b in bounds], acquisition=mk_acq(), **kw)
+        except LibFailure as e:
+            bad(f"dtype/GpOptimiser-constructor/x-{xkind}/y-{ykind}/raises:{e.exc_type}", f"constructor raised on initial data x {xkind}, y {ykind}: {e}", traceback=e.tb)
+            return {"fails": fails, "n": nev, "tags": tags}
+        nev += 1
+        mx, my, me = [list(v) for v in rows], list(yv0), (None if e0 is None else list(e0.tolist()))
+
+        def state(where, added):
+            """data rows / incumbent / caller arrays / predictions in the current state; ``added`` = (x form, y form) of the last add"""
+            nonlocal nev
+            # one key per kind of defect: the class the initial data were stored in (integer / float32 / float64); forms go in the details
+            sfx, sfy = f"initial-x-{DT_CLASS[xkind]}", f"initial-y-{DT_CLASS[ykind]}"
+            for name, how in snap.changed():
+                bad(f"dtype/caller-array-modified/{name.split('#')[0]}", f"after {where}: the caller's {name} was modified ({how})")
+            X, Y = np.array(mx, dtype=float), np.array(my, dtype=float)
+            ok = True
+            for nm, arr, want, sf in (("x", getattr(opt, "x", None), X, sfx), ("y", getattr(opt, "y", None), Y, sfy), ("gp.x", getattr(opt.gp, "x", None), X, sfx), ("gp.y", getattr(opt.gp, "y", None), Y, sfy)):
+                try:
+                    got = None if arr is None else np.asarray(arr, dtype=float)
+                except (TypeError, ValueError):
+                    got = None
+                if got is None or got.shape != want.shape:
+                    bad(f"dtype/data/{nm}-has-not-the-shape-of-initial-data-plus-added-evaluations/{sf}", f"after {where}: {nm} = {arr!r}; the data are {want.tolist()}")
+                    ok = False
+                elif not np.array_equal(got, want):
+                    which = "row-is-not-the-evaluation-that-was-added" if (added is not None and np.array_equal(got[:-1], want[:-1])) else "is-not-initial-data-plus-added-evaluations"
+                    bad(f"dtype/data/{nm}-{which}/{sf}", f"after {where}: {nm} (dtype {getattr(arr, 'dtype', None)}) = {got.tolist()} but the evaluations given are {want.tolist()} (as float64)",
+                        stored_dtype=str(getattr(arr, "dtype", None)))
+                    ok = False
+            if me is not None:
+                E = np.array(me)
+                ge = getattr(opt, "y_err", None)
+                if ge is None or np.shape(ge) != E.shape or not np.array_equal(np.asarray(ge, dtype=float), E):
+                    bad("dtype/data/y_err-is-not-initial-plus-added-errors", f"after {where}: y_err = {ge!r} vs {E.tolist()}")
+            mm = getattr(opt.acquisition, "mu_max", None)
+            if mm is None or float(mm) != max(my):
+                bad(f"dtype/incumbent/mu_max-is-not-max-y/{sfy}", f"after {where}: acquisition.mu_max = {mm!r}, max of the y values given = {max(my)!r} (y given: {my})")
+            if getattr(opt.acquisition, "gp", None) is not opt.gp:
+                bad("dtype/model/acquisition-not-on-the-current-model", f"after {where}: acquisition.gp is not the optimiser's current gp")
+            if not ok:
+                return False
+            # ---- predictions: those of a fresh optimiser given the SAME data as float64 arrays and the same hyper-parameters
+            theta = getattr(opt.gp, "hyperpars", None)
+            if theta is None:
+                raise HarnessError("seam missing: GpRegressor.hyperpars")
+            theta = np.array(theta, dtype=float)
+            calls_before = script.calls
+            try:
+                with lib("GpOptimiser-fresh-float64"):
+                    fopt = G.GpOptimiser(X.copy(), Y.copy(), bounds=[tuple(b) for b in bounds], acquisition=mk_acq(), hyperpars=theta.copy(), **({} if me is None else {"y_err": np.array(me)}))
+            except LibFailure as e:
+                bad(f"dtype/fresh-GpOptimiser-from-float64-data/raises:{e.exc_type}", f"after {where}: {e}", traceback=e.tb)
+                return
+            finally:
+                script.calls = calls_before
+            # derived tolerance: both are solves with the same covariance matrix K(theta); rounding enters as eps * cond(K)
+            amp, ls = float(np.exp(theta[-d - 1])), np.exp(theta[-d:])
+            D2 = (((X[:, None, :] - X[None, :, :]) / ls) ** 2).sum(axis=2)
+            K = amp**2 * np.exp(-0.5 * D2) + (np.diag(np.array(me) ** 2) if me is not None else 0.0)
+            cond = float(np.linalg.cond(K + 1e-12 * amp**2 * np.eye(len(my)))) if np.all(np.isfinite(K)) else float("inf")
+            yscale = max(abs(v) for v in my) + abs(float(theta[0]))
+            tol_mu = C_EPS * EPS * cond * yscale
+            tol_var = C_EPS * EPS * cond * amp**2
+            pts = [list(p) for p in DT_PROBES[d]] + [list(mx[-1])] + [[0.5 * (a + b) for a, b in zip(mx[-1], mx[0])]]
+            for j, pt in enumerate(pts):
+                q = np.array(pt, dtype=float).reshape(1, d)
+                try:
+                    with lib("gp.__call__"):
+                        m1, s1 = opt.gp(q.copy())
+                    with lib("gp.__call__-fresh"):
+                        m2, s2 = fopt.gp(q.copy())
+                except LibFailure as e:
+                    bad(f"dtype/predict/raises:{e.exc_type}", f"after {where}: prediction at {pt} raised: {e}", traceback=e.tb)
+                    return
+                nev += 2
+                m1, s1, m2, s2 = (float(np.asarray(v, dtype=float).reshape(-1)[0]) for v in (m1, s1, m2, s2))
+                em, ev_ = abs(m1 - m2), abs(s1**2 - s2**2)
+                slack["dtype/predict/mean-vs-fresh-float64"] = max(slack.get("dtype/predict/mean-vs-fresh-float64", 0.0), em / tol_mu if np.isfinite(tol_mu) else 0.0)
+                slack["dtype/predict/variance-vs-fresh-float64"] = max(slack.get("dtype/predict/variance-vs-fresh-float64", 0.0), ev_ / tol_var if np.isfinite(tol_var) else 0.0)
+                if not em <= tol_mu:
+                    bad(f"dtype/predict/mean-differs-from-fresh-optimiser-on-the-same-data-as-float64/{sfx}/{sfy}",
+                        f"after {where}: mean at {pt} = {m1!r}; a fresh GpOptimiser given the same {len(my)} evaluations as float64 arrays and the same hyper-parameters gives {m2!r} (tol {tol_mu:.3e})", probe=pt)
+                if not ev_ <= tol_var:
+                    bad(f"dtype/predict/variance-differs-from-fresh-optimiser-on-the-same-data-as-float64/{sfx}/{sfy}",
+                        f"after {where}: sigma at {pt} = {s1!r}; fresh optimiser on the same data as float64: {s2!r} (variance tol {tol_var:.3e})", probe=pt)
+
+        state("constructor", None)
+        tags.add(f"dtype initial d={d} x={xkind}{'(flat)' if d == 1 and r % 2 else ''} y={ykind} yerr={case['yerr']} acq={case['acq']}")
+        for k in range(case["nadd"]):
+            xdesc, nx = dt_add_x(d, r + k)
+            ydesc, ny = dt_add_y(r + k + yrot)
+            ev = 0.05 + 0.01 * k
+            ne = [ev, np.array([ev]), np.array(ev)][k % 3]
+            xval = [float(v) for v in np.asarray(nx, dtype=np.float64).reshape(-1)]
+            yval = float(np.asarray(ny, dtype=np.float64).reshape(-1)[0])
+            if isinstance(nx, (np.ndarray, list)):
+                snap.add(f"add-new_x#{k}", nx)
+            if isinstance(ny, np.ndarray):
+                snap.add(f"add-new_y#{k}", ny)
+            where = f"add #{k + 1} of x = {xval} given as {xdesc}, y = {yval!r} given as {ydesc} (initial x {xkind}, initial y {ykind})"
+            try:
+                with lib("add_evaluation"):
+                    if me is None:
+                        opt.add_evaluation(nx, ny)
+                    else:
+                        opt.add_evaluation(nx, ny, ne)
+            except LibFailure as e:
+                bad(f"dtype/add_evaluation/x-as-{xdesc}/y-as-{ydesc}/raises:{e.exc_type}", f"{where} raised: {e}", traceback=e.tb)
+                break
+            nev += 1
+            mx.append(xval)
+            my.append(yval)
+            if me is not None:
+                me.append(ev)
+            if state(where, (xdesc, ydesc)) is False:
+                break  # the data are already wrong: later states would repeat the same finding
+            tags.add(f"dtype add d={d} stored-x={xkind} new-x={xdesc} {'non-integer' if any(v != round(v) for v in xval) else 'integer-valued'}")
+            tags.add(f"dtype add stored-y={ykind} new-y={ydesc} {'non-integer' if yval != round(yval) else 'integer-valued'} new-max={yval == max(my)}")
+    finally:
+        ACQM.random, REGM.random = saved
+    for k_, c in seen.items():
+        for f in fails:
+            if f["key"] == k_:
+                f["occurrences_in_case"] = c
+    return {"fails": fails[:30], "n": nev, "tags": tags, "slack": slack, "sample": {"case": case}}
+
+
+EVALUATORS = {"acq": ev_acq, "selftest": ev_selftest, "history": ev_history, "dtype": ev_dtype}
 
 
 def run(ck):
@@ -912,6 +1152,31 @@ def run(ck):
     ck.extra["repeated_measurements"] = {"alphabet": ACTIONS_REPEAT, "configurations": len(rcases) // len(ACTIONS_REPEAT), "depth": 3,
                                          "histories_with_a_repeat_per_configuration": sum(4 ** l - 2 ** l for l in (1, 2, 3)),
                                          "transitions_executed_and_checked": int(sum(r.get("transitions", 0) for r in rres))}
+    # ---- numeric dtypes / containers of the initial data and of the added evaluations
+    dcases = []
+    dacq = [("EI", None), ("UCB", 2.0), ("MV", None)]
+    nk = len(DT_XKINDS)
+    for d in (1, 2):
+        for xi, xkind in enumerate(DT_XKINDS):
+            for r in range(DT_NADD_FORMS):
+                if quick:
+                    # Latin-square slice: every (stored x kind, form of the added x) pair and every (stored y kind, form of the added y) pair
+                    # is met in both d (three consecutive add forms per case); d = 2 takes every other rotation
+                    if d == 2 and (r + xi + seed) % 2:
+                        continue
+                    ysel = [(xi + r + seed) % nk]
+                    yrots = [(xi + 2 * r + seed) % DT_NADD_FORMS]
+                    asel = [dacq[(xi + r + d + seed) % 3]]
+                else:
+                    ysel, yrots, asel = range(nk), range(DT_NADD_FORMS), [dacq[(xi + r + d + seed) % 3]]
+                for yi in ysel:
+                    for yrot in yrots:
+                        for acq, kappa in asel:
+                            dcases.append({"d": d, "xkind": xkind, "ykind": DT_YKINDS[yi], "rot": r, "yrot": yrot, "acq": acq, "kappa": kappa,
+                                           "yerr": bool((xi + yi + r + yrot) % 2), "script": scripts[(xi + r) % len(scripts)], "nadd": 3})
+    dres = ck.run_cases("dtype", dcases, chunk=1)
+    ck.extra["dtype_forms"] = {"configurations": len(dcases), "adds_per_configuration": 3, "initial_x_kinds": DT_XKINDS, "initial_y_kinds": DT_YKINDS,
+                               "library_calls": int(sum(r.get("n", 0) for r in dres))}
     ck.extra["history_search"] = {
         "configurations": len(hcases) // 4,
         "histories_per_configuration": 1 + 3 + 9 + 27,
@@ -939,7 +1204,19 @@ def run(ck):
         "the last initial point), propose(bfgs)} that contains Ri or Rl (70 per configuration) x d{1,2} x y_err{yes,no} x acquisition (quick: one rotating per (d, y_err); thorough: all three), "
         "y = current incumbent + 1/4, errors and input forms rotating as for other adds; same invariants and probes in every post-state (the data are the initial data plus EVERY added "
         "evaluation in order, the model is re-fitted to them, mu_max = max y); a repeat tag is (which point, d, y_err, acquisition, input form, pending proposal, rows at that location)."
+        " Numeric dtypes / containers (evaluator 'dtype'): initial x in {float64, int64, float32, list of ints, int32, list of floats} (integer kinds hold an integer-valued design; d = 1 "
+        "alternately flat / column) x initial y in the same six kinds (integer kinds hold integer values) x d{1,2} x rotation of three consecutive adds through the six forms of an added location "
+        "{python float 1.7, python int, int64 (d,) array, float32 (1,d) array, list of ints, int32 0-d / (1,d) array} and the six forms of an added value {python float 6.8, python int, numpy int64 scalar, "
+        "int32 0-d array, float32 (1,) array, float32 scalar} x acquisition x y_err{no,yes}; quick: a Latin-square slice in which every (stored kind, added form) pair occurs for x and for y; thorough: the "
+        "whole (x kind, y kind, x-form rotation, y-form rotation) product. After the constructor and after EVERY add: x / y / gp.x / gp.y (read as float64) are exactly the initial values followed by "
+        "the float64 value of every evaluation that was added, mu_max = max of all y given, the caller's objects are untouched, and mean / variance of the optimiser's model at four points (two fixed, "
+        "the point just added, the midpoint to the first data point) equal those of a fresh GpOptimiser given the same evaluations as float64 arrays and the same hyper-parameters. "
+        "A dtype tag is (d, stored kind, added form, integer-valued or not[, new maximum or not])."
     )
+    ck.assume("numeric dtypes: the statement 'adding an evaluation makes it part of the data the next model is fitted to and updates the incumbent maximum' has no clause about dtypes, so an "
+              "integer / float32 / list container of the initial data is taken to carry NUMBERS: the value that was added (converted exactly to float64) must be the new row whatever dtype the earlier data "
+              "were stored in, and the incumbent is the maximum of the y values given; the dtype the library keeps its arrays in is not prescribed (they are compared as float64 values). Predictions are "
+              "compared with a fresh optimiser on the same data as float64 to 64 eps cond(K) x (data scale | prior variance): the hyper-parameter selection of the re-fit is not compared")
     ck.assume("repeated measurements: a second evaluation at a location already in the data is an ordinary evaluation (noisy objective; also without y_err, where the model's diagonal jitter "
               "keeps the covariance factorisable): the property's 'adding an evaluation makes it part of the data and updates the incumbent' has no exception for it; a pending proposal stays pending")
     ck.assume("continuous inputs are represented by the listed finite lattice (d<=2, n<=6, SquaredExponential kernel, z in [-40, 8]); z is steered through public inputs only (the mean-function constant, or inside the data hull the value of the incumbent data point); targets above the ceiling reachable inside the hull and points whose variance is below resolution are skipped and counted")
